@@ -61,7 +61,7 @@ func Unit(args []string) error {
 				st.Update(uid, true)
 			case "F":
 				st.Update(uid, false)
-			case "Reset":
+			case "Reset", "ResetNC":
 				st.SetStatus(uid, nodepoolhealth.StatusUnknown)
 			case "Restart":
 				st = nodepoolhealth.NewState()
